@@ -58,7 +58,7 @@ def run_case(case, step_hook=None):
     QUEUE_LOW_WATERMARK_PCT=case.get('low_pct', 0.8), MAX_QUEUE_SIZE_HARD_PCT=hard_pct,
     USE_FLOW_CONTROL=bool(case.get('flow')), DYNAMIC_ROUTER=bool(case.get('dynamic')),
     DYNAMIC_ROUTER_MAX_RETRIES=case.get('max_retries', 1), DESTINATION_PROTOCOL=case['protocol'],
-    DESTINATIONS=[dest_string(d) for d in dests], RELAY_METHOD='consistent-hashing', REPLICATION_FACTOR=1,
+    DESTINATIONS=[dest_string(d) for d in dests], RELAY_METHOD=case.get('method', 'consistent-hashing'), REPLICATION_FACTOR=1,
     DIVERSE_REPLICAS=False, ROUTER_HASH_TYPE='carbon_ch', TAG_RELAY_NORMALIZED=False, LOG_LISTENER_CONN_SUCCESS=False,
     program='carbon-relay', instance=None,
     # documented option: reset a connection whose sent/received ratio of the previous instrumentation period is poor
@@ -92,6 +92,15 @@ def run_case(case, step_hook=None):
   t.records = 0
   real_record = None
   try:
+    if case.get('method') == 'rules':
+      # relay-rules.conf: the last digit of 'm.<n>' picks the destination, everything else goes to the first one
+      lines = []
+      for j, d in enumerate(dests):
+        digits = ''.join(str(k) for k in range(10) if k % len(dests) == j)
+        lines += ['[r%d]' % j, 'pattern = ^m\\.\\d*[%s]$' % digits, 'destinations = %s' % dest_string(d), '']
+      lines += ['[default]', 'default = true', 'destinations = %s' % dest_string(dests[0]), '']
+      with open(b.settings['relay-rules'], 'w') as f:
+        f.write('\n'.join(lines))
     root = MultiService()
     service = b.service
     service.setupPipeline(['relay'], root, b.settings)
